@@ -85,6 +85,7 @@ OnlyAllowedChoices == [][\A c \in TimeComps(cfg) : Updated(c) => AllowedChoice(c
 (* C03 *)
 Monotone == [][\A c \in TimeComps(cfg) : s'.time[c] >= s.time[c]]_vars
 NoLateUpdate == [][(\E c \in TimeComps(cfg) : Updated(c)) => MayUpdate(cfg, s)]_vars
+NeverFinishedComp == \A c \in TimeComps(cfg) : ~Finished(cfg, s, c)     \* vacuity guard: must be violated on family finisher
 NoUpdateAfterFinished == [][\A c \in TimeComps(cfg) : Updated(c) => ~Finished(cfg, s, c)]_vars
 EndReached == ph = "done" => AllReached(cfg, s)
 Terminates == <>(ph \in {"done", "circ", "err"})
